@@ -298,6 +298,8 @@ impl Series1 {
     /// Returns a new series that contains the region of the series between x0 and x1, including
     /// the end points. This breaks the regularity of the spacing
     pub fn between(&self, x0: f64, x1: f64) -> Self {
+        // The bounds may be given in either order, like those of an `Interval`
+        let (x0, x1) = if x1 < x0 { (x1, x0) } else { (x0, x1) };
         let mut xs = Vec::new();
         let mut ys = Vec::new();
 
